@@ -1,5 +1,7 @@
 import GcArena.Proofs.BrandFlowLemmas
 import GcArena.Generated.BrandFlow
+import GcArena.Proofs.CollectLemmas
+import GcArena.Generated.CollectTable
 /-!
 # C12 (brand flow) — no function that safe code can call lets the caller choose a brand
 
@@ -168,5 +170,43 @@ example : 60 ≤ (Generated.brandFlow.sigs.filter Sig.callable).length ∧
 obtain further values of that callback's brand (`Gc::downgrade`-like entries exist). -/
 example : ∃ s ∈ Generated.brandFlow.sigs, s.callable = true ∧ s.outBrands = ["gc"] ∧ s.inBrands = ["gc"] := by
   decide
+
+/-! ## Branded data cannot hide inside a root value
+
+The premises above keep a branded value from *leaving* its callback as a value.  It could still
+stay behind **inside the root**, where later callbacks find it again, if some `Collect` impl
+accepted a component that carries the brand and that the collector never sees: the target of a
+`&'gc T` (from `Gc::as_ref`) or of an untraced `Gc<'gc, T>` kept there is collected while the
+reference is still readable.  `Gc::as_ref`'s own safety argument is "`&'gc T` never implements
+`Collect`, so it cannot be stored inside the root"; the rule below is what makes that true of every
+provided impl: a type parameter that can occur in a field and is not traced must be `'static`
+(`S: 'gc` on the hasher state of `HashMap<K, V, S>` is **not** enough).  Same table, same rule and
+same general theorem as `GcArena.C16.untraced_static_ok` / `no_hidden_brand`
+(`Model/CollectTy.lean`), re-checked here so that C12 reports it too. -/
+
+/-- No provided `Collect` impl (feature-gated ones included) lets a branded value hide in an
+untraced parameter: in the table regenerated from the current source tree, every parameter that can
+occur in a field of the value is traced or bounded by `'static`, the remaining ones are
+phantom-only, and no lifetime of a self type is free. -/
+theorem no_collect_impl_hides_brand : Generated.collectTable.untracedStatic = true := by
+  decide +kernel
+
+/-- What the rule buys, for every table satisfying it: a component of a well-typed container value
+that the impl's `trace` does not visit has a `'static` type — it carries no brand at all — and
+contains no arena pointer. -/
+theorem untraced_component_has_no_brand (t : CollectTy.Table) (hu : t.untracedStatic = true)
+    (e : Nat) (en : CollectTy.Entry) (he : t.entry? e = some en) (args : Nat → CollectTy.Ty)
+    (len : Nat) (pos : Nat → Nat) (elem : Nat → CollectTy.Val)
+    (h : CollectTy.HasType t (.node len pos elem) (.app e args)) (j : Nat) (hj : j < len)
+    (hnt : en.traced.contains (pos j) = false) :
+    CollectTy.isStatic t (args (pos j)) = true ∧ CollectTy.ptrsOf (elem j) = [] :=
+  CollectTy.no_hidden_brand t hu e en he args len pos elem h j hj hnt
+
+/-- The delivered mutant (`S: 'static` ↦ `S: 'gc` on `Collect for HashMap<K, V, S>`) is rejected by
+the rule, the crate's entry is accepted. -/
+theorem hasher_mutant_witness :
+    CollectTy.Example.hmCurrent.untracedStatic = true ∧
+    CollectTy.Example.hmMutant.untracedStatic = false := by decide
+
 
 end GcArena.C12s
